@@ -9,7 +9,7 @@
      depth_ok s e     : the written document nests less than 128 deep (serde_json's recursion limit)
      wire_event s e   : no Some(x) printing as `null` sits in a field that is skipped when None
      exact_event s e  : no Some(x) printing as `null` anywhere (such a value cannot come out of the reader) *)
-From RipV Require Import Base.Prelude Base.Json Base.JsonParse Model.Wire Model.WireSized Proofs.WireProofs Proofs.WireOrderProofs Proofs.WireSizedProofs Model.WireRun Proofs.WireRunProofs Gen.EventSchema Gen.Sinks Gen.RequestHead.
+From RipV Require Import Base.Prelude Base.Json Base.JsonParse Model.Wire Model.WireSized Proofs.WireProofs Proofs.WireOrderProofs Proofs.WireSizedProofs Model.WireRun Proofs.RunSitesProofs Proofs.WireRunProofs Gen.EventSchema Gen.Sinks Gen.RequestHead.
 
 (* the premise of everything below holds for the schema extracted from the current source *)
 Theorem c03_current_schema_wf : wf_schema gen_schema = true.
